@@ -17,8 +17,8 @@ Only the property theorems (helper lemmas: `OW/Proofs/C08H5.lean`, `OW/Proofs/C0
 
 `narrow = false` in the theorems: the element types float64, float32, int32, uint32, int64, uint64. For `int` and
 `uint` the round trip is FALSE on the real code (known finding KF-C08-int-width, witness `narrow_roundtrip_loses_elements`).
-`sliceSize` is the code AS REPAIRED by `/verif/fixes/h5_slicesize_ceil.diff` (`sliceSizeFloor_drops_last` is the
-counter-example for the code before the repair). `sync.RWMutex` and libhdf5 itself are trusted / modelled.
+`sliceSize` is the code as repaired by `/verif/fixes/h5_slicesize_ceil.diff` (fix commit 6552b9c;
+`sliceSizeFloor_drops_last` is the counter-example for the code before the repair). `sync.RWMutex` and libhdf5 itself are trusted / modelled.
 -/
 namespace OW.Props.C08
 open OW.Nd OW.Sim.H5 OW.Proofs.C08H5
